@@ -18,7 +18,7 @@
    every theorem holds for all of them. *)
 From Coq Require Import Permutation.
 From Verif Require Import Lib.Base Lib.Dyadic Model.Native
-  Proofs.NativeIndex Proofs.NativeCheck Proofs.NativeConv Proofs.NativeDec Proofs.NativeCall Proofs.NativeRun.
+  Proofs.NativeIndex Proofs.NativeCheck Proofs.NativeConv Proofs.NativeDec Proofs.NativeCall Proofs.NativeRun Proofs.NativeHist.
 
 (* ================= 1. set-up: what is accepted, what is rejected ================= *)
 
@@ -401,6 +401,73 @@ Theorem C17_too_many_args_is_parse_error : forall pf pp ff funcs_r funcs_i awk n
 Proof. exact run_too_many_args. Qed.
 Print Assumptions C17_too_many_args_is_parse_error.
 
+(* ================= 6. the reusable interpreter: New once, Execute several times ================= *)
+(* run_history pf pp ff funcs_r awk name args maps: ParseProgram with funcs_r, interp.New, then one
+   Execute per element of maps (the Funcs map of that call, in its iteration order).  The state that
+   survives between calls is the native table (None = nil); set-up builds it only when it is nil. *)
+
+(* the invariant: an Execute that ends in a set-up error started without a table and leaves none *)
+Theorem C17_failed_setup_leaves_table_nil : forall pf pp ff fr awk name args st m st' n e,
+  exec_one pf pp ff fr awk name args st m = (st', OSetupError n e) -> st = None /\ st' = None.
+Proof. exact failed_setup_leaves_table_nil. Qed.
+Print Assumptions C17_failed_setup_leaves_table_nil.
+
+(* hence the next Execute validates its Funcs map again, exactly like a first one *)
+Theorem C17_failed_setup_revalidates : forall pf pp ff fr awk name args st m st' n e m2,
+  exec_one pf pp ff fr awk name args st m = (st', OSetupError n e) ->
+  exec_one pf pp ff fr awk name args st' m2 = exec_one pf pp ff fr awk name args None m2.
+Proof. exact failed_setup_revalidates. Qed.
+Print Assumptions C17_failed_setup_revalidates.
+
+Theorem C17_first_execute_is_run : forall pf pp ff fr awk name args m,
+  resolve_call fr awk name (zlen args) = NOk None ->
+  snd (exec_one pf pp ff fr awk name args None m) = run pf pp ff fr m awk name args.
+Proof. exact first_execute_is_run. Qed.
+Print Assumptions C17_first_execute_is_run.
+
+(* any number of rejected set-ups, with whatever maps, leave no trace *)
+Theorem C17_rejected_setups_leave_no_trace : forall pf pp ff fr awk name args maps1 maps2,
+  Forall is_setup_error (exec_history pf pp ff fr awk name args None maps1) ->
+  exec_history pf pp ff fr awk name args None (maps1 ++ maps2) =
+  exec_history pf pp ff fr awk name args None maps1 ++ exec_history pf pp ff fr awk name args None maps2.
+Proof. exact rejected_setups_leave_no_trace. Qed.
+Print Assumptions C17_rejected_setups_leave_no_trace.
+
+(* what the code does once a set-up has succeeded: the table is kept and config.Funcs of later
+   calls is not looked at (Execute documents that Funcs "must not change between calls") *)
+Theorem C17_established_table_is_kept : forall pf pp ff fr awk name args tbl m,
+  exec_one pf pp ff fr awk name args (Some tbl) m = (Some tbl, call_outcome pf pp ff fr awk name args tbl).
+Proof. exact established_table_is_kept. Qed.
+Print Assumptions C17_established_table_is_kept.
+
+(* the documented use — the same map on every Execute, walked in any order each time: history does
+   not matter, every Execute is exactly a fresh one-shot run, so every theorem of section 5 holds
+   for every Execute *)
+Theorem C17_every_execute_is_a_fresh_run : forall pf pp ff fr awk name args maps,
+  resolve_call fr awk name (zlen args) = NOk None ->
+  NoDup (map fst fr) -> (forall n f, In (n, f) fr -> go_typed f) ->
+  Forall (Permutation fr) maps ->
+  run_history pf pp ff fr awk name args maps = inr (map (fun m => run pf pp ff fr m awk name args) maps).
+Proof. exact every_execute_is_a_fresh_run. Qed.
+Print Assumptions C17_every_execute_is_a_fresh_run.
+
+Theorem C17_history_never_panics : forall pf pp ff fr awk name args maps os,
+  NoDup (map fst fr) -> (forall n f, In (n, f) fr -> go_typed f) ->
+  Forall (Permutation fr) maps ->
+  run_history pf pp ff fr awk name args maps = inr os -> forall o k, In o os -> o <> OPanic k.
+Proof. exact history_never_panics. Qed.
+Print Assumptions C17_history_never_panics.
+
+(* an entry of another shape is rejected at EVERY Execute *)
+Theorem C17_history_rejects_every_time : forall pf pp ff fr awk name args maps os n0 f0,
+  NoDup (map fst fr) -> (forall n f, In (n, f) fr -> go_typed f) ->
+  Forall (Permutation fr) maps ->
+  In (n0, f0) fr -> acceptable n0 f0 = false ->
+  run_history pf pp ff fr awk name args maps = inr os ->
+  forall o, In o os -> exists n e f, o = OSetupError n e /\ In (n, f) fr /\ acceptable n f = false.
+Proof. exact history_rejects_every_time. Qed.
+Print Assumptions C17_history_rejects_every_time.
+
 (* ================= non-vacuity ================= *)
 (* three functions  zz: func(int8, string, ...uint16) (int64, error);  a: func() []byte;  M: func(bool)
    in two different iteration orders *)
@@ -479,3 +546,23 @@ Proof. repeat split; vm_compute; reflexivity. Qed.
 Example C17_ex_decimal : z_to_dec (-9223372036854775808) =
   [45;57;50;50;51;51;55;50;48;51;54;56;53;52;55;55;53;56;48;56] /\ z_to_dec 0 = [48] /\ z_to_dec 1205 = [49;50;48;53].
 Proof. repeat split; vm_compute; reflexivity. Qed.
+
+(* histories, concrete: a map with a keyword-named entry is rejected at each of three Executes;
+   invalid, invalid, then the valid map: two errors, then the call works *)
+Definition ex_bad_entry : bytes * fval :=
+  ([112;114;105;110;116], FFunc {| params := []; variadic := false; results := [] |} (fun _ => [])).
+
+Example C17_ex_history_rejected_each_time :
+  run_history ex_pf ex_pp ex_ff (ex_bad_entry :: ex_funcs DErrNil) [] [122;122] []
+    [ex_bad_entry :: ex_funcs DErrNil; rev (ex_bad_entry :: ex_funcs DErrNil); ex_bad_entry :: ex_funcs DErrNil]
+  = inr [OSetupError [112;114;105;110;116] EKeyword; OSetupError [112;114;105;110;116] EKeyword;
+         OSetupError [112;114;105;110;116] EKeyword].
+Proof. vm_compute. reflexivity. Qed.
+
+Example C17_ex_history_invalid_then_valid :
+  run_history ex_pf ex_pp ex_ff (ex_funcs DErrNil) [] [122;122] []
+    [ex_bad_entry :: ex_funcs DErrNil; ex_funcs DErrNil ++ [ex_bad_entry]; rev (ex_funcs DErrNil); ex_funcs DErrNil]
+  = inr [OSetupError [112;114;105;110;116] EKeyword; OSetupError [112;114;105;110;116] EKeyword;
+         OValue (VNum (FFin 42 0)) [GV (TInt W8 false) (DInt 0); GV (TString false) (DStr [])];
+         OValue (VNum (FFin 42 0)) [GV (TInt W8 false) (DInt 0); GV (TString false) (DStr [])]].
+Proof. vm_compute. reflexivity. Qed.
